@@ -388,6 +388,21 @@ def check(pid, tier, seed, t0, st, replay):
     work = scratch('scan-' + pid, deterministic='%s-%d' % (tier, seed))
     try:
         if st.get('harness', 1) == 0 and st.get('ocaml', 1) == 0:
+            if replay and 'data_b64' not in json.load(open(replay)):
+                d = json.load(open(replay))
+                if d.get('files') and d.get('query'):
+                    # a query-level finding (lib/objview.py): scan the files, run the query, show what it answers
+                    proj = work + '/replayproj'
+                    for nm, txt in d['files']:
+                        os.makedirs(proj, exist_ok=True)
+                        open(os.path.join(proj, nm), 'wb').write(txt.encode('utf-8', 'surrogateescape'))
+                    import qrun
+                    r_, _ = qrun.run_queries(proj, [('replay', d['query'])], work + '/replayq')
+                    print('replay: %s -> %s' % (d['query'], str(r_.get('replay'))[:600]))
+                    print('recorded: %s' % json.dumps(d.get('detail'))[:600])
+                else:
+                    print('replay file names no input (%s); running the whole check instead' % ', '.join(sorted(d))[:200])
+                replay = None
             if replay:
                 d = json.load(open(replay))
                 cases = [dict(id='replay', path=d['path'], data=base64.b64decode(d['data_b64']), origin=d.get('origin', 'replay'))]
